@@ -544,7 +544,10 @@ func (r *Reader) ReadMessage(codec Codec) (messageInstance any, err error) {
 			return
 		}
 	} else {
-		// 外部消息反序列化
+		// 外部消息反序列化：未配置 Codec（默认）时返回错误，而不是对 nil 接口发起调用
+		if codec == nil {
+			return nil, fmt.Errorf("message %q is not registered and no codec is configured", messageName)
+		}
 		messageInstance, err = codec.Decode(messageData)
 		if err != nil {
 			return
